@@ -1,5 +1,6 @@
 import Lean.Data.Json
 import VsbModel.Model.Split
+import VsbModel.Model.ChunkedHash
 
 /-!
 Line-protocol driver for the executable models: one request per line `<op> <json>`, one JSON
@@ -72,10 +73,39 @@ def opStreamRead (j : Json) : Except String Json := do
       jr :: go r' bs
   pure (Json.arr (go { pending := msgs } bufs).toArray)
 
+/-! ## chash -/
+open Vsb.ChunkedHash in
+/-- `chash`: {bs, parts} → the block decomposition the model's hasher digests (H = Hout = id) and
+the byte counts consumed by each individual `write` call of the `write_all` loops. -/
+def opChash (j : Json) : Except String Json := do
+  let bs ← (← j.getObjVal? "bs").getNat?
+  let parts ← (← (← j.getObjVal? "parts").getArr?).toList.mapM natList
+  let H : List Nat → List Nat := id
+  let rec wr (fuel : Nat) (s : St Nat (List Nat)) (buf : List Nat) (acc : List Nat) : Option (St Nat (List Nat) × List Nat) :=
+    match fuel with
+    | 0 => none
+    | fuel+1 =>
+      if buf.isEmpty then some (s, acc) else
+      let (s', n) := s.write H buf
+      if n = 0 then some (s', acc ++ [0]) else wr fuel s' (buf.drop n) (acc ++ [n])
+  let rec go (s : St Nat (List Nat)) (ps : List (List Nat)) (acc : List Nat) : Option (St Nat (List Nat) × List Nat) :=
+    match ps with
+    | [] => some (s, acc)
+    | p :: ps => match wr (p.length + 1) s p acc with
+      | some (s', acc') => go s' ps acc'
+      | none => none
+  let consumed := match go { blockSize := bs } parts [] with
+    | some (_, c) => natsJson c
+    | none => Json.null
+  match chunked H (fun ds => ds) bs parts with
+  | some blocks => pure (Json.mkObj [("blocks", Json.arr (blocks.map natsJson).toArray), ("consumed", consumed)])
+  | none => pure (Json.mkObj [("error", "WriteZero"), ("consumed", consumed)])
+
 def dispatch (op : String) (j : Json) : Except String Json :=
   match op with
   | "split" => opSplit j
   | "streamread" => opStreamRead j
+  | "chash" => opChash j
   | _ => .error s!"unknown op {op}"
 
 def handle (line : String) : String :=
